@@ -508,7 +508,7 @@ class StabilizerCode(metaclass=ABCMeta):
         else:
             rows, cols = bsf_operator.nonzero()
 
-        for col in cols:
+        for col in np.sort(cols):
             if col < self.n:
                 location = self.qubit_coordinates[col]
                 operator[location] = 'X'
